@@ -46,7 +46,7 @@ fn roundtrip(s: &[u8]) {
     core::mem::forget(out);
 }
 
-//@ tier: thorough
+//@ tier: attempt
 //@ timeout: 2400
 //@ inst: V = MV
 //@ funcs: jaq_std::Explode::next, jaq_std::implode::<MV>, bstr::decode_utf8
